@@ -9,7 +9,7 @@
  * The driver (vlib/sigthread.py) therefore knows in which phase every target is when it sends a signal with kill(2),
  * and how many seconds lie between two signals: nothing is decided by sleeping.
  *
- *   sigthread_harness <evfd> <cmdfd> <fanout> <N> <batch 0|1> <S 0|1> [<inherited>]
+ *   sigthread_harness <evfd> <cmdfd> <fanout> <N> <batch 0|1> <S 0|1> [<inherited> [<clock at start>]]
  * <inherited>: what pdsh finds when it is started -- any of  i SIGINT ignored | z SIGTSTP ignored | I SIGINT blocked |
  *              Z SIGTSTP blocked  (`pdsh ... &` from a script, nohup-like wrappers, trap '' INT, pdsh's own prompt mode:
  *              main.c sets SIGINT to SIG_IGN before it forks the run of each typed command); default: default dispositions,
@@ -176,6 +176,10 @@ int main(int argc, char **argv)
         if (strchr(argv[7], 'Z')) sigaddset(&old, SIGTSTP);
     }
     pthread_sigmask(SIG_SETMASK, &old, NULL);
+    /* the clock pdsh is started at (time_t is as wide as the platform makes it: values beyond 2^31 and 2^32 are dates
+     * after 2038 and 2106; 0 is the epoch, where last_intr's initial value 0 is "now") */
+    if (argc > 8)
+        vclock = strtol(argv[8], NULL, 10);
 
     memset(&opt, 0, sizeof(opt));
     err_init("pdsh");
